@@ -39,7 +39,7 @@ fn handlerize(rng: &mut Rng, op: String) -> String {
             if rng.chance(1, 2) { format!("hsignholder {} {}", rng.range(4, 6), t[1]) } else { format!("hsigncommit {} {}", rng.range(4, 6), t[1]) },
         Some("revokecp") if rng.chance(1, 3) => format!("h{}", op),
         Some("signcp") if rng.chance(1, 4) => format!("h{}", op),
-        Some("mutualclose") if rng.chance(1, 2) => format!("h{}", op),
+        Some("mutualclose") if t[2] == "2" && rng.chance(1, 2) => format!("h{}", op),
         Some("validate") if t.len() >= 7 && rng.chance(1, 6) => format!("hvalidate1 {} {} {} {} {} {}", rng.range(4, 6), t[1], t[2], t[3], t[4], t[6]),
         Some("getpoint") if rng.chance(1, 3) => {
             let n: u64 = t[1].parse().unwrap_or(0);
@@ -192,7 +192,7 @@ impl EnfGroup {
                 // mutualclose <policyOk> <phase> <well-formed request?>: a well-formed request is still
                 // refused while the current holder commitment has pending HTLCs
                 let good = rng.chance(4, 5);
-                format!("mutualclose {} 2 {}", if good && !cur_htlcs { 1 } else { 0 }, if good { 1 } else { 0 })
+                format!("mutualclose {} {} {}", if good && !cur_htlcs { 1 } else { 0 }, rng.range(1, 2), if good { 1 } else { 0 })
             }
             "signcp" => {
                 let base = if rng.chance(1, 6) { cc.saturating_sub(1) } else { cc };
